@@ -52,6 +52,8 @@ def positions(prog, nflushes=0):
         out.append(("leaf", n, "err", "base"))
         if n % 2 == 0:
             out.append(("leaf", n, "err", "falsy"))
+        else:
+            out.append(("leaf", n, "err", "frozen"))
         out.append(("leaf", n, "lazy"))
         out.append(("leaf", n, "junk"))
     for n, (block, i, nid, top) in enumerate(slots):
@@ -60,6 +62,8 @@ def positions(prog, nflushes=0):
             out.append(("raise", n, "base"))
         if n % 3 == 1:
             out.append(("raise", n, "falsy"))
+        if n % 3 == 2:
+            out.append(("raise", n, "frozen"))
     for f in range(nflushes):
         out.append(("flush", f, 0, "exc"))
         out.append(("flush", f, 1, "exc"))
